@@ -389,21 +389,21 @@ Qed.
 (* ================================================================ main statements *)
 Definition cut (sz : bsize) (all : bytes) : bytes :=
   match sz with BSized n => firstn (N.to_nat n) all | BNone => [] | BStream => all end.
-Definition item_codec (c : codec) (r : resp) (sz : bsize) : codec := fst (codec_encode_item c r sz).
-Definition item_head (c : codec) (r : resp) (sz : bsize) : head := snd (codec_encode_item c r sz).
+Definition item_codec0 (c : codec) (r : resp) (sz : bsize) : codec := fst (codec_encode_item0 c r sz).
+Definition item_head0 (c : codec) (r : resp) (sz : bsize) : head := snd (codec_encode_item0 c r sz).
 
-Lemma item_te c r sz :
-  c_te (item_codec c r sz) = choose_te (c_head c) (c_stream c) r (c_ver c) sz.
-Proof. unfold item_codec, codec_encode_item, msg_encode. reflexivity. Qed.
+Lemma item_te0 c r sz :
+  c_te (item_codec0 c r sz) = choose_te (c_head c) (c_stream c) r (c_ver c) sz.
+Proof. unfold item_codec0, codec_encode_item0, msg_encode. reflexivity. Qed.
 
-Lemma item_fields c r sz :
-  hd_fields (item_head c r sz) = encode_headers r (c_ver c) sz (c_conn (item_codec c r sz)).
-Proof. unfold item_head, item_codec, codec_encode_item, msg_encode. reflexivity. Qed.
+Lemma item_fields0 c r sz :
+  hd_fields (item_head0 c r sz) = encode_headers r (c_ver c) sz (c_conn (item_codec0 c r sz)).
+Proof. unfold item_head0, item_codec0, codec_encode_item0, msg_encode. reflexivity. Qed.
 
-Lemma item_ctx c r sz :
-  c_head (item_codec c r sz) = c_head c /\ c_stream (item_codec c r sz) = c_stream c /\
-  c_ver (item_codec c r sz) = c_ver c.
-Proof. unfold item_codec, codec_encode_item, msg_encode. repeat split. Qed.
+Lemma item_ctx0 c r sz :
+  c_head (item_codec0 c r sz) = c_head c /\ c_stream (item_codec0 c r sz) = c_stream c /\
+  c_ver (item_codec0 c r sz) = c_ver c.
+Proof. unfold item_codec0, codec_encode_item0, msg_encode. repeat split. Qed.
 
 Lemma fv_te_gen r ct ver skip :
   lower_names (rs_headers r) ->
@@ -465,8 +465,8 @@ Qed.
 
 (* The body a conforming client decodes is the concatenation of the chunks (cut to the declared
    size); a short body makes encode_eof fail and never looks complete. *)
-Theorem te_roundtrip c r sz chunks :
-  c_head c = false -> c_stream c = false ->
+Theorem te_roundtrip0 c r sz chunks :
+  c_head c = false -> (sz = BStream -> c_stream c = false \/ rs_nochunk r = true) ->
   no_body_status (rs_status r) = false ->
   lower_names (rs_headers r) ->
   (rs_nochunk r = true -> sz = BStream ->
@@ -474,9 +474,9 @@ Theorem te_roundtrip c r sz chunks :
   (forall n, sz = BSized n -> n < 2 ^ 64) ->
   Forall (fun b => lenN b < 2 ^ 64) chunks ->
   sz <> BNone ->
-  let fields := hd_fields (item_head c r sz) in
-  let c2 := fst (codec_encode_chunks (item_codec c r sz) chunks) in
-  let body := snd (codec_encode_chunks (item_codec c r sz) chunks) in
+  let fields := hd_fields (item_head0 c r sz) in
+  let c2 := fst (codec_encode_chunks (item_codec0 c r sz) chunks) in
+  let body := snd (codec_encode_chunks (item_codec0 c r sz) chunks) in
   match codec_encode_eof c2 with
   | Some (_, tail) =>
       (forall n, sz = BSized n -> n <= lenN (concat chunks)) /\
@@ -489,14 +489,14 @@ Theorem te_roundtrip c r sz chunks :
 Proof.
   intros Hh Hst Hs Hl Hopt Hn Hch Hnone fields c2 body.
   destruct (status_classes _ Hs) as (_ & _ & Hnb).
-  assert (Hte := item_te c r sz). rewrite Hh, Hst in Hte.
+  assert (Hte := item_te0 c r sz). rewrite Hh in Hte.
   unfold choose_te in Hte. rewrite Hnb in Hte. cbn [orb negb] in Hte.
-  assert (Hf : fields = encode_headers r (c_ver c) sz (c_conn (item_codec c r sz))) by apply item_fields.
+  assert (Hf : fields = encode_headers r (c_ver c) sz (c_conn (item_codec0 c r sz))) by apply item_fields0.
   rewrite encode_headers_normal in Hf by exact Hs.
   unfold read_message.
   destruct sz as [|n|]; [contradiction| |].
   - (* Sized n *)
-    assert (Hte' : c_te (item_codec c r (BSized n)) = TLength n) by (rewrite Hte; destruct n; reflexivity).
+    assert (Hte' : c_te (item_codec0 c r (BSized n)) = TLength n) by (rewrite Hte; destruct n; reflexivity).
     pose proof (chunks_length chunks _ _ Hte') as Hc.
     unfold c2, body. rewrite Hc. cbn [fst snd]. unfold codec_encode_eof, set_te. cbn [c_te te_encode_eof].
     specialize (Hn n eq_refl).
@@ -527,7 +527,8 @@ Proof.
       unfold codec_encode_eof. rewrite Hte. cbn [te_encode_eof].
       rewrite Hf, framing_close by (auto using fv_te_gen, fv_cl_gen).
       split; [intros m Hm; discriminate|]. exists FClose. rewrite app_nil_r. reflexivity.
-    + destruct (c_ver c) eqn:Ev; cbn [lt_11 negb andb] in Hte, Hf.
+    + destruct (Hst eq_refl) as [Hs0|Hs0]; [|discriminate]. rewrite Hs0 in Hte.
+      destruct (c_ver c) eqn:Ev; cbn [lt_11 negb andb] in Hte, Hf.
       * (* HTTP/1.0: Eof framing *)
         pose proof (chunks_eof chunks _ Hte) as Hc. unfold c2, body. rewrite Hc. cbn [fst snd].
         unfold codec_encode_eof. rewrite Hte. cbn [te_encode_eof].
@@ -561,18 +562,18 @@ Qed.
 
 (* HEAD request, or a 1xx (other than 101) / 204 response: whatever body the handler
    supplies, not one byte follows the head, and end-of-body is accepted *)
-Theorem no_body_bytes c r sz chunks :
+Theorem no_body_bytes0 c r sz chunks :
   c_head c = true \/ status_no_body (rs_status r) = true ->
-  codec_encode_chunks (item_codec c r sz) chunks = (item_codec c r sz, []) /\
-  codec_encode_eof (item_codec c r sz) = Some (item_codec c r sz, []).
+  codec_encode_chunks (item_codec0 c r sz) chunks = (item_codec0 c r sz, []) /\
+  codec_encode_eof (item_codec0 c r sz) = Some (item_codec0 c r sz, []).
 Proof.
   intro H.
-  assert (Hte : c_te (item_codec c r sz) = TLength 0).
-  { rewrite item_te. unfold choose_te.
+  assert (Hte : c_te (item_codec0 c r sz) = TLength 0).
+  { rewrite item_te0. unfold choose_te.
     destruct H as [-> | ->]; [|rewrite orb_true_r]; reflexivity. }
   split; [apply chunks_empty_te; exact Hte|].
   unfold codec_encode_eof. rewrite Hte. cbn [te_encode_eof]. change (0 =? 0) with true. cbv iota.
-  rewrite <- Hte. destruct (item_codec c r sz); reflexivity.
+  rewrite <- Hte. destruct (item_codec0 c r sz); reflexivity.
 Qed.
 
 (* ... and the reader, told the method, expects none *)
@@ -585,21 +586,21 @@ Proof.
 Qed.
 
 (* ================================================================ HTTP/1.0: never chunked *)
-Theorem http10_never_chunked c r sz :
+Theorem http10_never_chunked0 c r sz :
   c_ver c = V10 ->
-  (forall e, c_te (item_codec c r sz) <> TChunked e) /\
+  (forall e, c_te (item_codec0 c r sz) <> TChunked e) /\
   (lower_names (rs_headers r) ->
    rs_nochunk r = false \/ user_has "transfer-encoding" r = false ->
    rs_status r <> 304 ->
-   field_values "transfer-encoding" (hd_fields (item_head c r sz)) = []).
+   field_values "transfer-encoding" (hd_fields (item_head0 c r sz)) = []).
 Proof.
   intro Hv. split.
-  - intros e. rewrite item_te, Hv. unfold choose_te.
+  - intros e. rewrite item_te0, Hv. unfold choose_te.
     destruct (c_head c || status_no_body (rs_status r)); [discriminate|]. cbn [negb].
     destruct sz as [|n|]; [discriminate|destruct n; discriminate|].
     cbn [lt_11 negb andb]. rewrite !andb_false_r. discriminate.
-  - intros Hl Hu H304. rewrite item_fields, Hv. unfold encode_headers.
-    fold (conn_fields (c_conn (item_codec c r sz)) V10). fold (date_fields r).
+  - intros Hl Hu H304. rewrite item_fields0, Hv. unfold encode_headers.
+    fold (conn_fields (c_conn (item_codec0 c r sz)) V10). fold (date_fields r).
     destruct (is_informational (rs_status r) || (rs_status r =? 204)) eqn:E1.
     + cbv iota beta zeta. fold (user_fields true r). cbn [app]. apply fv_te_gen; auto.
     + replace (rs_status r =? 304) with false by lia.
@@ -619,12 +620,12 @@ Qed.
    is a 304 (documented retention of content-length), no user-supplied Content-Length /
    Transfer-Encoding / Connection header reaches the wire: the only such fields are the ones
    the encoder generates from the chosen framing. *)
-Theorem user_framing_headers_ignored c r sz :
+Theorem user_framing_headers_ignored0 c r sz :
   lower_names (rs_headers r) ->
   rs_status r <> 304 ->
   (rs_nochunk r = false \/ sz <> BStream \/ (is_informational (rs_status r) || (rs_status r =? 204)) = true) ->
-  let fields := hd_fields (item_head c r sz) in
-  let ct := c_conn (item_codec c r sz) in
+  let fields := hd_fields (item_head0 c r sz) in
+  let ct := c_conn (item_codec0 c r sz) in
   exists len_fields,
     fields = len_fields ++ conn_fields ct (c_ver c) ++ user_fields true r ++ date_fields r /\
     field_values "transfer-encoding" (user_fields true r) = [] /\
@@ -633,7 +634,7 @@ Theorem user_framing_headers_ignored c r sz :
     (len_fields = [] \/ len_fields = [(str "transfer-encoding", str "chunked")] \/
      exists n, sz = BSized n /\ len_fields = [(str "content-length", dec n)]).
 Proof.
-  intros Hl H304 Hopt fields ct. unfold fields. rewrite item_fields. fold ct.
+  intros Hl H304 Hopt fields ct. unfold fields. rewrite item_fields0. fold ct.
   assert (Hu : field_values "transfer-encoding" (user_fields true r) = [] /\
                field_values "content-length" (user_fields true r) = [] /\
                field_values "connection" (user_fields true r) = []).
@@ -660,12 +661,143 @@ Qed.
    keep-alive setting / sticky STREAM flag): whatever the codec went through before, the head and
    the transfer encoding chosen for a response encoded right after its own request was decoded
    are the same. *)
+Theorem framing_from_own_context0 c c' rq r sz :
+  c_ka_enabled c = c_ka_enabled c' -> c_stream c = c_stream c' ->
+  item_head0 (codec_decode c rq) r sz = item_head0 (codec_decode c' rq) r sz /\
+  c_te (item_codec0 (codec_decode c rq) r sz) = c_te (item_codec0 (codec_decode c' rq) r sz) /\
+  c_conn (item_codec0 (codec_decode c rq) r sz) = c_conn (item_codec0 (codec_decode c' rq) r sz).
+Proof.
+  intros Hk Hs. unfold item_head0, item_codec0, codec_encode_item0, codec_decode, msg_encode.
+  cbn [c_ka_enabled c_head c_stream c_ver c_conn c_te fst snd]. rewrite Hk, Hs. repeat split.
+Qed.
+
+(* ================================================================ the real Codec::encode(Item) *)
+(* Codec::encode first applies [stream_adjust] (F18b repair), then the encoder proper. *)
+Definition item_codec (c : codec) (r : resp) (sz : bsize) : codec := fst (codec_encode_item c r sz).
+Definition item_head (c : codec) (r : resp) (sz : bsize) : head := snd (codec_encode_item c r sz).
+
+Lemma item_codec_eq c r sz : item_codec c r sz = item_codec0 c (stream_adjust c r sz) sz.
+Proof. reflexivity. Qed.
+Lemma item_head_eq c r sz : item_head c r sz = item_head0 c (stream_adjust c r sz) sz.
+Proof. reflexivity. Qed.
+
+Lemma sa_cases c r sz :
+  (stream_adjust c r sz = r /\ (c_stream c = false \/ sz <> BStream)) \/
+  (stream_adjust c r sz = mkResp (rs_status r) (rs_conn r) true (rs_headers r) /\
+   c_stream c = true /\ sz = BStream).
+Proof.
+  unfold stream_adjust. destruct (c_stream c); [|left; auto].
+  destruct sz; cbn [andb]; [left; split; [reflexivity|right; discriminate]..|right; auto].
+Qed.
+Lemma sa_status c r sz : rs_status (stream_adjust c r sz) = rs_status r.
+Proof. destruct (sa_cases c r sz) as [[-> _]|[-> _]]; reflexivity. Qed.
+Lemma sa_headers c r sz : rs_headers (stream_adjust c r sz) = rs_headers r.
+Proof. destruct (sa_cases c r sz) as [[-> _]|[-> _]]; reflexivity. Qed.
+
+Lemma item_te c r sz :
+  c_te (item_codec c r sz) = choose_te (c_head c) (c_stream c) (stream_adjust c r sz) (c_ver c) sz.
+Proof. apply item_te0. Qed.
+
+Theorem te_roundtrip c r sz chunks :
+  c_head c = false ->
+  no_body_status (rs_status r) = false ->
+  lower_names (rs_headers r) ->
+  (rs_nochunk r = true \/ c_stream c = true -> sz = BStream ->
+   user_has "transfer-encoding" r = false /\ user_has "content-length" r = false) ->
+  (forall n, sz = BSized n -> n < 2 ^ 64) ->
+  Forall (fun b => lenN b < 2 ^ 64) chunks ->
+  sz <> BNone ->
+  let fields := hd_fields (item_head c r sz) in
+  let c2 := fst (codec_encode_chunks (item_codec c r sz) chunks) in
+  let body := snd (codec_encode_chunks (item_codec c r sz) chunks) in
+  match codec_encode_eof c2 with
+  | Some (_, tail) =>
+      (forall n, sz = BSized n -> n <= lenN (concat chunks)) /\
+      exists f, read_message false (rs_status r) fields (body ++ tail) true =
+                RComplete f (cut sz (concat chunks)) (lenN (body ++ tail))
+  | None =>
+      exists n, sz = BSized n /\ lenN (concat chunks) < n /\
+                forall closed, read_message false (rs_status r) fields body closed = RIncomplete
+  end.
+Proof.
+  intros Hh Hs Hl Hopt Hn Hch Hnone.
+  rewrite item_head_eq, item_codec_eq. rewrite <- (sa_status c r sz).
+  apply te_roundtrip0; auto.
+  - intros ->. destruct (sa_cases c r BStream) as [[E [H|H]]|[E _]]; [left; exact H|contradiction|].
+    right. rewrite E. reflexivity.
+  - rewrite sa_status. exact Hs.
+  - rewrite sa_headers. exact Hl.
+  - intros Hnc Hsz. unfold user_has. rewrite sa_headers. apply Hopt; [|exact Hsz].
+    destruct (sa_cases c r sz) as [[E _]|[_ [H _]]]; [left; rewrite <- E; exact Hnc|right; exact H].
+Qed.
+
+Theorem no_body_bytes c r sz chunks :
+  c_head c = true \/ status_no_body (rs_status r) = true ->
+  codec_encode_chunks (item_codec c r sz) chunks = (item_codec c r sz, []) /\
+  codec_encode_eof (item_codec c r sz) = Some (item_codec c r sz, []).
+Proof. intro H. rewrite item_codec_eq. apply no_body_bytes0. rewrite sa_status. exact H. Qed.
+
+Theorem http10_never_chunked c r sz :
+  c_ver c = V10 ->
+  (forall e, c_te (item_codec c r sz) <> TChunked e) /\
+  (lower_names (rs_headers r) ->
+   (rs_nochunk r = false /\ (c_stream c = false \/ sz <> BStream)) \/ user_has "transfer-encoding" r = false ->
+   rs_status r <> 304 ->
+   field_values "transfer-encoding" (hd_fields (item_head c r sz)) = []).
+Proof.
+  intro Hv. rewrite item_codec_eq, item_head_eq.
+  destruct (http10_never_chunked0 c (stream_adjust c r sz) sz Hv) as [H1 H2]. split; [exact H1|].
+  intros Hl Hu H304. apply H2.
+  - rewrite sa_headers. exact Hl.
+  - destruct Hu as [[Hn Hs]|Hu]; [left|right; unfold user_has; rewrite sa_headers; exact Hu].
+    destruct (sa_cases c r sz) as [[E _]|[_ [A B]]]; [rewrite E; exact Hn|].
+    destruct Hs as [Hs|Hs]; [rewrite Hs in A; discriminate|contradiction].
+  - rewrite sa_status. exact H304.
+Qed.
+
+Theorem user_framing_headers_ignored c r sz :
+  lower_names (rs_headers r) ->
+  rs_status r <> 304 ->
+  ((rs_nochunk r = false /\ c_stream c = false) \/ sz <> BStream \/
+   (is_informational (rs_status r) || (rs_status r =? 204)) = true) ->
+  let fields := hd_fields (item_head c r sz) in
+  let ct := c_conn (item_codec c r sz) in
+  exists len_fields,
+    fields = len_fields ++ conn_fields ct (c_ver c) ++ user_fields true r ++ date_fields r /\
+    field_values "transfer-encoding" (user_fields true r) = [] /\
+    field_values "content-length" (user_fields true r) = [] /\
+    field_values "connection" (user_fields true r) = [] /\
+    (len_fields = [] \/ len_fields = [(str "transfer-encoding", str "chunked")] \/
+     exists n, sz = BSized n /\ len_fields = [(str "content-length", dec n)]).
+Proof.
+  intros Hl H304 Hopt. rewrite item_head_eq, item_codec_eq.
+  destruct (sa_cases c r sz) as [[E _]|[E [A B]]]; rewrite E.
+  - apply user_framing_headers_ignored0; auto.
+    destruct Hopt as [[H _]|[H|H]]; auto.
+  - (* STREAM request and stream body: only possible here for a 1xx / 204 status *)
+    apply (user_framing_headers_ignored0 c (mkResp (rs_status r) (rs_conn r) true (rs_headers r)) sz); auto.
+    destruct Hopt as [[_ H]|[H|H]]; [rewrite H in A; discriminate|contradiction|right; right; exact H].
+Qed.
+
 Theorem framing_from_own_context c c' rq r sz :
   c_ka_enabled c = c_ka_enabled c' -> c_stream c = c_stream c' ->
   item_head (codec_decode c rq) r sz = item_head (codec_decode c' rq) r sz /\
   c_te (item_codec (codec_decode c rq) r sz) = c_te (item_codec (codec_decode c' rq) r sz) /\
   c_conn (item_codec (codec_decode c rq) r sz) = c_conn (item_codec (codec_decode c' rq) r sz).
 Proof.
-  intros Hk Hs. unfold item_head, item_codec, codec_encode_item, codec_decode, msg_encode.
-  cbn [c_ka_enabled c_head c_stream c_ver c_conn c_te fst snd]. rewrite Hk, Hs. repeat split.
+  intros Hk Hs. rewrite !item_head_eq, !item_codec_eq.
+  assert (E : stream_adjust (codec_decode c rq) r sz = stream_adjust (codec_decode c' rq) r sz).
+  { unfold stream_adjust, codec_decode. cbn [c_stream]. rewrite Hs. reflexivity. }
+  rewrite E. apply framing_from_own_context0; assumption.
+Qed.
+
+(* a body delimited by the end of the connection never leaves the connection in keep-alive *)
+Theorem close_delimited_closes c r sz :
+  c_te (item_codec c r sz) = TEof -> c_conn (item_codec c r sz) <> CKeepAlive.
+Proof.
+  rewrite item_codec_eq. generalize (stream_adjust c r sz). intro r'.
+  unfold item_codec0, codec_encode_item0, msg_encode. cbn [fst c_te c_conn].
+  intros ->. cbn [te_is_eof]. rewrite andb_true_r.
+  destruct (rs_conn r') as [[| |]|]; try discriminate;
+    destruct (c_conn c); cbn [conn_eqb]; discriminate.
 Qed.
